@@ -1033,8 +1033,12 @@ class Driver:
                   "m2seed": self.m2seed()}
             if sched.random() < 0.2:
                 op["dst"] = src if sched.random() < 0.5 else self.fresh_slot()
-            if fault.random() < cfg["p_interrupt"]:
-                op["interrupt_at"] = self.interrupt_at(5000)
+            if fault.random() < 2 * cfg["p_interrupt"]:
+                # (state left behind by an interrupted normalisation shows only when the interruption
+                # lands inside the loop of a diagram that needs a move, and the request is then repeated)
+                # between 100 and 20 000 line events, log-uniform: early enough to land inside short
+                # normalisations, late enough to land after the first steps of longer ones
+                op["interrupt_at"] = 100 * self.interrupt_at(200)
             return op
         if r < 0.805:
             cls = sched.choice(["monoidal", "monoidal", "rigid"])      # rigid costs four times as much
